@@ -116,8 +116,18 @@ def compact_class_pairs(
         classes2[i].append(g)
     all_pairs = {}
     for i, class1 in enumerate(subtable.Class1Record):
+        if not classes1[i]:
+            # No glyph of the Coverage is in this class: the record can never apply.
+            continue
         for j, class2 in enumerate(class1.Class2Record):
             if is_really_zero(class2):
+                continue
+            if not classes2[j]:
+                if j == 0:
+                    # A value for "every other glyph" as second glyph cannot be
+                    # regrouped by second-glyph coverage: leave the subtable alone.
+                    return [subtable]
+                # No glyph is in this class: the record can never apply.
                 continue
             all_pairs[(tuple(sorted(classes1[i])), tuple(sorted(classes2[j])))] = (
                 getattr(class2, "Value1", None),
